@@ -26,7 +26,7 @@ PROPS = {
                 rule="one forged field of one online message per run (13 fields x adversary role x n in {2,3} x 3 inputs); oracle: an honest Ok is f(x_H, x') for some x'; distinct by (n, phase, field, role)"),
     "C03": dict(modules=["PolytuneModel.Thm.C03", "PolytuneModel.Thm.Sites"], theorems=["PolytuneModel.C03_check_sites_present", "PolytuneModel.macCheck_detect_or_extract", "PolytuneModel.C03_output_label", "PolytuneModel.openReg_detect_or_extract"], drive="C03", also=["C03m"], only="C03", cases=dict(quick=40, thorough=400),
                 rule="one forged authenticated field per run; oracle: the consumer returns Err; distinct by (n, phase, field, role)"),
-    "C04": dict(modules=["PolytuneModel.Thm.C04", "PolytuneModel.Thm.C04laand", "PolytuneModel.Thm.Sites", "PolytuneModel.Thm.C04kos"], theorems=["PolytuneModel.Kos.C04_kos_check_exact", "PolytuneModel.Kos.C04_kos_wrong_t_rejected", "PolytuneModel.Kos.C04_kos_detect_or_extract", "PolytuneModel.C04_check_sites_present", "PolytuneModel.C04_laand_check_value", "PolytuneModel.C04_laand_zero", "PolytuneModel.C04_laand_detect", "PolytuneModel.C04.C04_cex_cm_unchecked", "PolytuneModel.C04.C04_dm_bound", "PolytuneModel.C04.C04_open_is_committed", "PolytuneModel.C04.C04_cex_challenge_predetermined"], drive="C04", also=["C04p", "C04m"], cases=dict(quick=30, thorough=200),
+    "C04": dict(modules=["PolytuneModel.Thm.C04mirror", "PolytuneModel.Thm.C04", "PolytuneModel.Thm.C04laand", "PolytuneModel.Thm.Sites", "PolytuneModel.Thm.C04kos"], theorems=["PolytuneModel.Mirror.C04_cex_mirror", "PolytuneModel.Mirror.C04_mirror_rejected", "PolytuneModel.Mirror.C04_accept_forces_own_value", "PolytuneModel.Kos.C04_kos_check_exact", "PolytuneModel.Kos.C04_kos_wrong_t_rejected", "PolytuneModel.Kos.C04_kos_detect_or_extract", "PolytuneModel.C04_check_sites_present", "PolytuneModel.C04_laand_check_value", "PolytuneModel.C04_laand_zero", "PolytuneModel.C04_laand_detect", "PolytuneModel.C04.C04_cex_cm_unchecked", "PolytuneModel.C04.C04_dm_bound", "PolytuneModel.C04.C04_open_is_committed", "PolytuneModel.C04.C04_cex_challenge_predetermined"], drive="C04", also=["C04p", "C04m"], cases=dict(quick=30, thorough=200),
                 rule="one flipped payload bit per preprocessing message (18 phases x occurrence x recipients x n), commit-before-reveal under seeded schedules, challenge predictor from wire openings vs probes; distinct by (n, phase, occurrence) / schedule"),
     "C05": dict(modules=["PolytuneModel.Thm.C05", "PolytuneModel.Thm.C05msgs"], theorems=["PolytuneModel.OnlineMsgs.C05_out_shares_recipients", "PolytuneModel.OnlineMsgs.C05_lambda_recipients", "PolytuneModel.OnlineMsgs.C05_slots_are_output_regs", "PolytuneModel.C05_non_output_silent", "PolytuneModel.C05_output_party_messages"], drive="C09", also=["C01m"], cases=dict(quick=40, thorough=400),
                 rule="recorded messages per ordered pair vs model pattern; nothing to a non-output party after input processing; distinct by (circuit, p_eval, p_out)"),
@@ -38,7 +38,7 @@ PROPS = {
                 rule="every adversary message index x 8 byte-level classes (sampled in quick), structure-aware classes on nested vectors, crash after k-th message; oracle: Ok or Err, no panic, no hang, no allocation > 64x bytes + 1 MiB; distinct by (victim role, phase, class, outcome)"),
     "C09": dict(modules=["PolytuneModel.Thm.C09", "PolytuneModel.Thm.C09tied"], theorems=["PolytuneModel.OnlineMsgs.C09_tied_lengths_public", "PolytuneModel.OnlineMsgs.walk_masked_regs", "PolytuneModel.C09_len_value_independent", "PolytuneModel.C09_len_formula", "PolytuneModel.C09_shares_msg", "PolytuneModel.C09_masked_msg", "PolytuneModel.C09_labels_msg", "PolytuneModel.C09_row_len"], drive="C09", also=["C01m"], cases=dict(quick=40, thorough=400),
                 rule="two executions per public configuration (different inputs and coins); per ordered pair the (phase,len) sequence vs the model's pattern of the public parameters; distinct by (circuit, p_eval, p_out)"),
-    "C10": dict(modules=["PolytuneModel.Thm.C10", "PolytuneModel.Thm.C10laand", "PolytuneModel.Thm.C01C10", "PolytuneModel.Thm.GenArith", "PolytuneModel.Thm.C10abit"], theorems=["PolytuneModel.C10_abit", "PolytuneModel.C10_abit_valid", "PolytuneModel.Gen_bucketSize_pos", "PolytuneModel.C10_bucket", "PolytuneModel.C10_beaver", "PolytuneModel.C10_haand_pair", "PolytuneModel.combine_two", "PolytuneModel.C10_laand_rel", "PolytuneModel.C10_laand_valid", "PolytuneModel.andOK_of_beaver"], drive="C10", also=["C10u", "C10m", "C10l"], cases=dict(quick=8, thorough=40),
+    "C10": dict(modules=["PolytuneModel.Thm.C10", "PolytuneModel.Thm.C10laand", "PolytuneModel.Thm.C01C10", "PolytuneModel.Thm.GenArith", "PolytuneModel.Thm.C10abit"], theorems=["PolytuneModel.C10_abit", "PolytuneModel.C10_abit_valid", "PolytuneModel.Gen_bucketSize_pos", "PolytuneModel.C10_bucket", "PolytuneModel.C10_beaver", "PolytuneModel.C10_haand_pair", "PolytuneModel.combine_two", "PolytuneModel.C10_laand_rel", "PolytuneModel.C10_laand_valid", "PolytuneModel.andOK_of_beaver"], drive="C10", also=["C10u", "C10m", "C10l", "C19m"], cases=dict(quick=8, thorough=40),
                 rule="real coin toss + fashare + beaver_aand among n parties through wrappers; MAC relation for every ordered pair and index, AND relation for every triple, identical shared coins; distinct by (n, shares, triples)"),
     "C11": dict(modules=["PolytuneModel.Thm.C11", "PolytuneModel.Thm.C11kos"], theorems=["PolytuneModel.Kos.C11_kos_check_honest_spec", "PolytuneModel.Kos.M_comm", "PolytuneModel.Kos.clmulNat_eq_M", "PolytuneModel.OT.C11_cot", "PolytuneModel.OT.column_relation", "PolytuneModel.OT.C11_draws_agree", "PolytuneModel.OT.C11_in_step"], drive="C11", cases=dict(quick=20, thorough=1),
                 rule="two back-to-back KOS sessions (both role orders) per length incl. 8k+-1, 128k+-1; all-0 / all-1 / random choices; distinct by (length, choices, order)"),
@@ -53,7 +53,7 @@ PROPS = {
                 rule="one invalid argument per single-party run (10 classes), repeated output indices (all parties), validate-ok-but-not-wf circuits (5 classes); distinct by (class, circuit, indices)"),
     "C19": dict(modules=["PolytuneModel.Thm.C19", "PolytuneModel.Thm.GenArith", "PolytuneModel.Thm.C19mpc"], theorems=["PolytuneModel.C19_mpc_use", "PolytuneModel.initLoop_spec", "PolytuneModel.chunkSizeIter_regular", "PolytuneModel.Buf.C19_refines", "PolytuneModel.Buf.C19_from_new", "PolytuneModel.chunksOf_flatten", "PolytuneModel.Gen_chunkSizeIter_eq"], drive="C19", also=["C19m"], cases=dict(quick=400, thorough=6000),
                 rule="seeded op sequences (non-empty appends, partial/full item reads, chunked reads, len<=12) on both real variants and the model; non-trivial = a read after an append; distinct by op sequence"),
-    "C20": dict(modules=["PolytuneModel.Thm.C20transpose", "PolytuneModel.Thm.C20", "PolytuneModel.Thm.C20spec", "PolytuneModel.Thm.C20holes", "PolytuneModel.Thm.C20final", "PolytuneModel.Thm.C20ctr"], theorems=["PolytuneModel.TransposeP.C20_transpose_portable", "PolytuneModel.TransposeP.C20_transpose_portable_into", "PolytuneModel.TransposeP.writes_in_bounds", "PolytuneModel.TransposeP.loads_in_bounds", "PolytuneModel.AesRng.C20_ctr_single_call", "PolytuneModel.Holes.C20_clmul64_holes", "PolytuneModel.C20_clmul128_portable_exact", "PolytuneModel.C20_clmul128_portable_eq_spec", "PolytuneModel.C20_simd_eq_portable", "PolytuneModel.C20_clmul128_exact", "PolytuneModel.C20_pclmul128_exact", "PolytuneModel.clmul128Spec_eq_M", "PolytuneModel.C20_scalar_eq_simd", "PolytuneModel.karatsuba_mid"], drive="C20", cases=dict(quick=30, thorough=60), rule="transpose shapes 128 x c and random (single-bit, all-ones, random; unaligned), clmul basis / sparse / dense / random pairs, CR / TCCR hashes, AesRng fills of every sampled length; both dispatching and portable paths vs the Lean definitions; distinct by input"),
+    "C20": dict(modules=["PolytuneModel.Thm.C20avx", "PolytuneModel.Thm.C20transpose", "PolytuneModel.Thm.C20", "PolytuneModel.Thm.C20spec", "PolytuneModel.Thm.C20holes", "PolytuneModel.Thm.C20final", "PolytuneModel.Thm.C20ctr"], theorems=["PolytuneModel.Avx.C20_avx_transpose128", "PolytuneModel.Avx.pullAll_transposes", "PolytuneModel.TransposeP.C20_transpose_portable", "PolytuneModel.TransposeP.C20_transpose_portable_into", "PolytuneModel.TransposeP.writes_in_bounds", "PolytuneModel.TransposeP.loads_in_bounds", "PolytuneModel.AesRng.C20_ctr_single_call", "PolytuneModel.Holes.C20_clmul64_holes", "PolytuneModel.C20_clmul128_portable_exact", "PolytuneModel.C20_clmul128_portable_eq_spec", "PolytuneModel.C20_simd_eq_portable", "PolytuneModel.C20_clmul128_exact", "PolytuneModel.C20_pclmul128_exact", "PolytuneModel.clmul128Spec_eq_M", "PolytuneModel.C20_scalar_eq_simd", "PolytuneModel.karatsuba_mid"], drive="C20", cases=dict(quick=30, thorough=60), rule="transpose shapes 128 x c and random (single-bit, all-ones, random; unaligned), clmul basis / sparse / dense / random pairs, CR / TCCR hashes, AesRng fills of every sampled length; both dispatching and portable paths vs the Lean definitions; distinct by input"),
 }
 
 def sh(cmd, cwd=None, timeout=3600, env=None):
